@@ -251,6 +251,12 @@ func (r *Registry) LoadOutputs(
 	return nil
 }
 
+// ValidateTargetResult reports whether a cached target result lists exactly the outputs that the
+// target declares, i.e. whether LoadOutputs could restore the target from it.
+func (r *Registry) ValidateTargetResult(target *model.Target, targetResult *gen.TargetResult) error {
+	return validateTargetResultOutputs(target, targetResult)
+}
+
 func validateTargetResultOutputs(target *model.Target, targetResult *gen.TargetResult) error {
 	if targetResult == nil {
 		return fmt.Errorf("%s: cached target result is nil", target.Label)
